@@ -315,6 +315,8 @@ def _check_own(ctx):
                 if root not in idx_locals and not (hf.local_ty(root) or "").startswith("core::ops::range"):
                     incs.append(b_)
     ok = len(zs) == 1 and len(incs) == 1 and incs[0] in region_dominated(hf, zs[0]["false"])
+    if not ok and not zs:
+        ok = _counts_by_bool(prog, hf, R, bl)
     ctx.check(ok, "filling-rate", "counts-non-empty", "the filling figure does not count exactly the non-empty buckets", where=where(hf))
     cn = k7.Canon(prog, hf)
     pm = None
@@ -324,6 +326,39 @@ def _check_own(ctx):
     ok = pm is not None and pm[2][0] == "bin" and pm[2][1] == "Mul" and ("c", 1000) in (pm[2][2], pm[2][3]) and pm[3][0] in ("p", "var", "call?", "?") or \
         (pm is not None and pm[2][0] == "bin" and pm[2][1] == "Mul" and ("c", 1000) in (pm[2][2], pm[2][3]))
     ctx.check(ok, "filling-rate", "per-mille", "the per-mille figure is not count * 1000 / buckets (%s)" % (k7.expr_str(pm) if pm else None), where=where(hf))
+
+
+def _counts_by_bool(prog, hf, R, bl):
+    """branch-free counting: `count + u64::from(!head.is_zero())` / `count + (head != 0) as u64` once per bucket"""
+    from .util import value_origins
+    adds = []
+    for b_, blk in enumerate(hf.blocks):
+        if blk["cleanup"] or not in_cycle(hf, b_):
+            continue
+        for s_ in blk["stmts"]:
+            if s_["s"] == "assign" and s_["rhs"]["rv"] == "bin" and s_["rhs"]["op"] in ("Add", "AddWithOverflow"):
+                for side in ("a", "b"):
+                    for o in origins(prog, hf, s_["rhs"][side], at=b_) if s_["rhs"][side].get("k") in ("cp", "mv") else []:
+                        src = None
+                        if o.kind == "call" and (o.data.get("callee") or "").endswith(("From::from", "Into::into")) and o.data.get("args"):
+                            src = o.data["args"][0]
+                            at = o.block
+                        if src is None:
+                            continue
+                        for q in origins(prog, hf, src, at=at):
+                            neg = False
+                            while q is not None and q.kind == "un" and q.data["op"] == "Not":
+                                neg = not neg
+                                qq = origins(prog, hf, q.data["a"], at=q.block)
+                                q = qq[0] if len(qq) == 1 else None
+                            if q is None:
+                                continue
+                            is_zero_call = q.kind == "call" and (q.data.get("callee") or "").rsplit("::", 1)[-1] in ("is_zero", "_is_zero") and q.data.get("args")
+                            if is_zero_call and neg:
+                                xs = value_origins(prog, hf, q.data["args"][0], q.block)
+                                if xs and bl and all(is_call_to(prog, hf, y, R.need("BUCKET_LOAD")) for y in xs):
+                                    adds.append(b_)
+    return len(adds) == 1
 
 
 def _shape(fn):
